@@ -651,7 +651,7 @@ def _cop_recipes(draw, sub, nq):
     reps = draw(st.sampled_from([1, 1, 2, 3, 0, 5]))
     rep_ids = None
     use = draw(st.booleans())
-    if use and abs(reps) >= 1 and draw(one_in(3)):
+    if abs(reps) >= 1 and draw(one_in(3)):
         rep_ids = [draw(st.sampled_from(["r", "0", "x", "1"])) + str(i) for i in range(abs(reps))]
     until = None
     if not use and reps == 1 and draw(one_in(6)):
